@@ -574,7 +574,222 @@ def check_C11(ctx):
     return finish_with_proofs(ctx)
 
 
-CHECKS = {'C01': check_C01, 'C02': check_C02, 'C10': check_C10, 'C11': check_C11, 'C03': check_C03, 'C04': check_C04, 'C05': check_C05, 'C06': check_C06}
+# ------------------------------------------------------------- C07 / C08 -----
+def compat_pairs(pool):
+    """ordered pairs (A, B) of pool types related by table evolution (same
+    hash), possibly nested in structures / vectors / table entries"""
+    def rel(a, b):
+        if a == b:
+            return True
+        if a[0] == 'wrap':
+            return rel(a[2], b)
+        if b[0] == 'wrap':
+            return rel(a, b[2])
+        if a[0] != b[0]:
+            return False
+        k = a[0]
+        if k == 'tab':
+            if a[1] != b[1]:
+                return False
+            da = {i: (act, t) for i, act, t in a[2]}
+            for i, act, t in b[2]:
+                if i in da and act and da[i][0] and not rel(da[i][1], t):
+                    return False
+            return True
+        if k == 'tup':
+            return a[1] == b[1] and len(a[2]) == len(b[2]) and all(rel(x, y) for x, y in zip(a[2], b[2]))
+        if k == 'seq':
+            return a[1] == b[1] and rel(a[2], b[2])
+        return False
+    fam = [i for i, t in enumerate(pool.types) if any(x[0] == 'tab' and x[1] in (nopgen.FAMILY_HASH, nopgen.OUTER_HASH) for x in nopgen.walk(t))]
+    return [(i, j) for i in fam for j in fam if rel(pool.types[i], pool.types[j])]
+
+
+def project(a, b, v):
+    """the value a reader of type b must see after reading what a writer of type a wrote"""
+    if isinstance(v, str):
+        return v
+    if a[0] == 'wrap':
+        return project(a[2], b, v)
+    if b[0] == 'wrap':
+        return project(a, b[2], v)
+    k = a[0]
+    if k == 'tab':
+        da = {}
+        for (i, act, t), x in zip(a[2], v[1:]):
+            da[i] = (act, t, x)
+        out = ['tab']
+        for i, act, t in b[2]:
+            if act and i in da and da[i][0] and not isinstance(da[i][2], str):
+                out.append(['some', project(da[i][1], t, da[i][2][1])])
+            else:
+                out.append('none')
+        return out
+    if k == 'tup':
+        return ['seq'] + [project(x, y, e) for x, y, e in zip(a[2], b[2], v[1:])]
+    if k == 'seq':
+        return ['seq'] + [project(a[2], b[2], e) for e in v[1:]]
+    return v
+
+
+def check_C07(ctx):
+    proofs_or_violation(ctx, ['Properties_C07.v'])
+    pool = get_pool()
+    pairs = compat_pairs(pool)
+    fam = sorted({i for i, _ in pairs})
+    S = CodecStreams(ctx, nvals=(40 if ctx.quick else 400), types=fam)
+    rows = [r for r in S.run_enc() if r['h'] and r['h']['st'] == '0']
+    broken = corr_enc(ctx, S, lambda r: None)
+    by = {}
+    for r in rows:
+        by.setdefault(r['tid'], []).append(r)
+    items = []
+    for a, b in pairs:
+        for r in by.get(a, []):
+            hx = r['h']['bytes']
+            items.append((b, (hx if hx != '-' else '') + '2a', '-', (a, r), None))
+    drows = S.run_dec(items)
+    dbroken = []
+    for d in drows:
+        a, r = d['tag']
+        ctx.count('cross-version', d['case'], nontrivial=d['h'] is not None)
+        if d['h'] is None:
+            ctx.violate('harness-crash:dec', 'reader crashed: %s -> %s' % (d['case'][:160], d['hraw'][:300]), {'case': d['case'], 'output': d['hraw']})
+            continue
+        want = sx.show(sx.canon(project(pool.types[a], pool.types[d['tid']], sx.parse(r['h']['dump'])[0])))
+        n = hexlen(r['h']['bytes'])
+        if d['h'].get('st') != '0' or not val_eq(d['h'].get('val'), want) or d['h'].get('consumed') != str(n):
+            ctx.violate('cross-version', 'data written with one table definition did not read correctly with another: writer %s value %s, reader %s got %s (expected %s, %d bytes)'
+                        % (type_desc(pool, a)[:80], r['h']['dump'][:80], type_desc(pool, d['tid'])[:80], d['hraw'][:120], want[:80], n),
+                        {'writer': type_desc(pool, a), 'reader': type_desc(pool, d['tid']), 'value': r['h']['dump'], 'bytes': r['h']['bytes'],
+                         'read': d['hraw'], 'expected': want})
+        elif d['m'] is not None and not (same(d['h'], d['m'], ('st', 'consumed')) and val_eq(d['h'].get('val'), d['m'].get('val'))):
+            dbroken.append(d)
+    report_broken(ctx, broken, 'enc', 'Serializer::Write = model enc')
+    report_broken(ctx, dbroken, 'dec', 'Deserializer::Read = model dec')
+    return finish_with_proofs(ctx, {'version_pairs': len(pairs)})
+
+
+def read_uint(bs, i):
+    p = bs[i]
+    if p < 0x80:
+        return p, i + 1
+    n = {0x80: 1, 0x81: 2, 0x82: 4, 0x83: 8}[p]
+    return int.from_bytes(bytes(bs[i + 1:i + 1 + n]), 'little'), i + 1 + n
+
+
+def enc_uint(n):
+    if n < 128:
+        return [n]
+    for p, w in ((0x80, 1), (0x81, 2), (0x82, 4), (0x83, 8)):
+        if n < (1 << (8 * w)):
+            return [p] + list(n.to_bytes(w, 'little'))
+
+
+def parse_table(hx):
+    bs = list(bytes.fromhex(hx))
+    assert bs[0] == 0xb5
+    h, i = read_uint(bs, 1)
+    cnt, i = read_uint(bs, i)
+    ents = []
+    for _ in range(cnt):
+        eid, i = read_uint(bs, i)
+        sz, i = read_uint(bs, i)
+        ents.append((eid, bs[i:i + sz]))
+        i += sz
+    return h, ents, bs[i:]
+
+
+def build_table(h, ents, sizes=None):
+    out = [0xb5] + enc_uint(h) + enc_uint(len(ents))
+    for k, (eid, body) in enumerate(ents):
+        sz = len(body) if sizes is None or sizes[k] is None else sizes[k]
+        out += enc_uint(eid) + enc_uint(sz) + list(body)
+    return bytes(out).hex() or '-'
+
+
+def check_C08(ctx):
+    proofs_or_violation(ctx, ['Properties_C08.v'])
+    pool = get_pool()
+    fam = [i for i, t in enumerate(pool.types) if t[0] == 'tab' and t[1] == nopgen.FAMILY_HASH]
+    S = CodecStreams(ctx, nvals=(30 if ctx.quick else 300), types=fam)
+    rows = [r for r in S.run_enc() if r['h'] and r['h']['st'] == '0']
+    items = []
+    for r in rows:
+        t = pool.types[r['tid']]
+        known = {i: act for i, act, _ in t[2]}
+        h, ents, _ = parse_table(r['h']['bytes'])
+        val = r['h']['dump']
+        n0 = hexlen(r['h']['bytes'])
+        # permutations
+        if len(ents) > 1:
+            for _ in range(3):
+                p = ents[:]
+                ctx.rng.shuffle(p)
+                items.append((r['tid'], build_table(h, p), '-', ('permute', val, n0), None))
+        # hash
+        for hh in (h + 1, 0, 2 ** 64 - 1):
+            if hh != h:
+                items.append((r['tid'], build_table(hh, ents), '-', ('hash', None, None), None))
+        for k, (eid, body) in enumerate(ents):
+            # duplicate a known active entry (adjacent and at the end)
+            dup = ents[:k + 1] + [(eid, body)] + ents[k + 1:]
+            items.append((r['tid'], build_table(h, dup), '-', ('duplicate', None, None), None))
+            items.append((r['tid'], build_table(h, ents + [(eid, body)]), '-', ('duplicate', None, None), None))
+            # larger declared size with matching padding
+            for pad in (1, 3, 200):
+                g = ents[:k] + [(eid, body + [ctx.rng.randrange(256) for _ in range(pad)])] + ents[k + 1:]
+                items.append((r['tid'], build_table(h, g), '-', ('grow', val, n0 + pad + (len(enc_uint(len(body) + pad)) - len(enc_uint(len(body))))), None))
+            # smaller declared size, body cut to it
+            for cut in sorted({0, len(body) // 2, len(body) - 1}):
+                if 0 <= cut < len(body):
+                    g = ents[:k] + [(eid, body[:cut])] + ents[k + 1:]
+                    items.append((r['tid'], build_table(h, g), '-', ('shrink', None, None), None))
+            # corrupt one byte inside the entry
+            if body:
+                j = ctx.rng.randrange(len(body))
+                g = ents[:k] + [(eid, body[:j] + [body[j] ^ ctx.rng.choice([1, 0x80, 0xff, 0x3c])] + body[j + 1:])] + ents[k + 1:]
+                items.append((r['tid'], build_table(h, g), '-', ('corrupt', None, None), None))
+        # unknown / deleted ids, also repeated
+        unk = [(9999, [1, 2, 3]), (9999, []), (70000, [0xff] * 5)]
+        items.append((r['tid'], build_table(h, unk[:1] + ents + unk[1:]), '-', ('unknown', val, None), None))
+        dels = [i for i, act in known.items() if not act]
+        if dels:
+            items.append((r['tid'], build_table(h, [(dels[0], [7, 7]), (dels[0], [8])] + ents), '-', ('deleted-twice', val, None), None))
+    drows = S.run_dec(items)
+    broken = []
+    for d in drows:
+        kind, val, n = d['tag']
+        ctx.count('framing:' + kind, d['case'], nontrivial=d['h'] is not None)
+        if d['h'] is None:
+            ctx.violate('harness-crash:dec', 'reader crashed: %s -> %s' % (d['case'][:160], d['hraw'][:300]), {'case': d['case'], 'output': d['hraw']})
+            continue
+        h = d['h']
+        bad = None
+        if kind in ('permute', 'grow', 'unknown', 'deleted-twice'):
+            if h.get('st') != '0' or not val_eq(h.get('val'), val) or (n is not None and h.get('consumed') != str(n)):
+                bad = 'a table with %s entries was not read to the original value / position' % kind
+        elif kind == 'hash' and h.get('st') != '7':
+            bad = 'a table with a different hash was not rejected with InvalidTableHash'
+        elif kind == 'duplicate' and h.get('st') != '11':
+            bad = 'a repeated recognised active entry was not rejected with DuplicateTableEntry'
+        elif kind == 'shrink' and h.get('st') == '0':
+            bad = 'an entry whose declared size is smaller than its value needs was accepted'
+        if bad:
+            ctx.violate('framing:' + kind, '%s: %s -> %s' % (bad, d['case'][:160], d['hraw'][:160]),
+                        {'type': type_desc(pool, d['tid']), 'case': d['case'], 'output': d['hraw'], 'model': d['mraw']})
+        elif d['m'] is not None and not (h.get('st') == d['m'].get('st') and (h.get('st') != '0' or (val_eq(h.get('val'), d['m'].get('val')) and h.get('consumed') == d['m'].get('consumed')))):
+            if kind == 'corrupt' and (h.get('st') == '0') != (d['m'].get('st') == '0'):
+                ctx.violate('framing:corrupt', 'a corrupted entry is %s although the documented decoding of its frame %s: %s' % (
+                    'accepted' if h.get('st') == '0' else 'rejected', 'fails' if h.get('st') == '0' else 'succeeds', d['case'][:200]),
+                    {'type': type_desc(pool, d['tid']), 'case': d['case'], 'output': d['hraw'], 'model': d['mraw']})
+            else:
+                broken.append(d)
+    report_broken(ctx, broken, 'dec-table', 'Deserializer::Read = model dec on manipulated tables')
+    return finish_with_proofs(ctx)
+
+
+CHECKS = {'C01': check_C01, 'C02': check_C02, 'C07': check_C07, 'C08': check_C08, 'C10': check_C10, 'C11': check_C11, 'C03': check_C03, 'C04': check_C04, 'C05': check_C05, 'C06': check_C06}
 
 
 def run(pid, tier, seed, replay=None):
